@@ -35,6 +35,12 @@
    LockScope = "code" is the repository before that commit (Flush without the mutex).
    It is kept as a negative control only: TLC must refute AllPersistedOnce on it (W9).
 
+   CreateTable takes the mutex for the whole call.  Tables in LateTables do not exist at
+   the start: an inserter creates them ("create", a harness gate in front of the call)
+   at any moment — after earlier inserts and flushes, while another goroutine flushes —
+   and only then can entries go into them.  Every table has a location column, so the
+   location dictionary is shared by tables created at different times.
+
    Processes: inserters (PerIns InsertData calls each, table and location chosen
    freely), explicit flushers (PerFl Flush calls), and Close after all of them have
    returned (the statement speaks of entries inserted before the recorder is closed).
@@ -54,6 +60,7 @@ CONSTANTS InsSeq,      \* sequence of inserter names
           BatchSizes,  \* candidate batch thresholds (chosen in Init)
           PerIns,      \* InsertData calls per inserter
           PerFl,       \* Flush calls per explicit flusher
+          LateTables,  \* "fix": tables that do not exist at the start; an inserter creates them (CreateTable) at any moment
           LockScope,   \* "code" | "fix"
           SigMode      \* "fix" only, what tells two schedules apart besides their final state: "none" |
                        \* "label" (where the holder's flush was when a call was let in to wait) | "proc" (and whose call)
@@ -88,12 +95,13 @@ VARIABLES pc,         \* process -> "idle" | "fl_check" | … | "closed" | "cras
           snap,       \* process -> rest of the range snapshot of cur's entries
           crashed,    \* "none" or the process whose goroutine panicked (the program dies)
           pend,       \* process -> entry its InsertData is about to append ("fix": while it waits for the mutex)
+          made,       \* tables that exist (CreateTable has returned)
           left,       \* process -> API calls still to make
           inserted,   \* entries whose InsertData has begun
           racy,       \* an InsertData or a Flush ran while another process was inside a flush
           sig,        \* "fix": {<<p, where the holder was>>} for every call let through a gate while the mutex was held
           hist        \* the schedule so far (not part of the VIEW)
-mvars == <<pc, mu, entries, locEntries, locInfo, count, batch, txn, dbRows, dbLoc, todo, cur, snap, crashed, pend>>
+mvars == <<pc, mu, entries, locEntries, locInfo, count, batch, txn, dbRows, dbLoc, todo, cur, snap, crashed, pend, made>>
 vars  == <<mvars, left, inserted, racy, sig, hist>>
 (* a panic ends the program: what the other goroutines were doing no longer matters *)
 View  == IF crashed = "none" THEN <<mvars, left, inserted, racy, sig>> ELSE <<crashed, batch, racy>>
@@ -104,20 +112,21 @@ Abs == INSTANCE RecorderAbs WITH ATables <- Tables, ains <- inserted,
           alocs <- (IF pc[Closer] = "closed" THEN dbLoc ELSE <<>>)
 
 NoEntry == [id |-> 0, tab |-> "", loc |-> ""]
-MInit(b) == /\ pc = [p \in Procs |-> "idle"] /\ mu = "free"
+MInit(b, tabs) == /\ pc = [p \in Procs |-> "idle"] /\ mu = "free"
             /\ entries = [t \in Tables |-> <<>>] /\ locEntries = <<>>
             /\ locInfo = [s \in Locs |-> 0] /\ count = 0 /\ batch = b /\ txn = FALSE
             /\ dbRows = [t \in Tables |-> <<>>] /\ dbLoc = <<>>
             /\ todo = [p \in Procs |-> {}] /\ cur = [p \in Procs |-> LocT] /\ snap = [p \in Procs |-> <<>>]
-            /\ crashed = "none" /\ pend = [p \in Procs |-> NoEntry]
+            /\ crashed = "none" /\ pend = [p \in Procs |-> NoEntry] /\ made = tabs
 (* the same as an action (a fresh recorder), for trace validation of many runs in one file *)
-MReset(b) == /\ pc' = [p \in Procs |-> "idle"] /\ mu' = "free"
+MReset(b, tabs) == /\ pc' = [p \in Procs |-> "idle"] /\ mu' = "free"
              /\ entries' = [t \in Tables |-> <<>>] /\ locEntries' = <<>>
              /\ locInfo' = [s \in Locs |-> 0] /\ count' = 0 /\ batch' = b /\ txn' = FALSE
              /\ dbRows' = [t \in Tables |-> <<>>] /\ dbLoc' = <<>>
              /\ todo' = [p \in Procs |-> {}] /\ cur' = [p \in Procs |-> LocT] /\ snap' = [p \in Procs |-> <<>>]
-             /\ crashed' = "none" /\ pend' = [p \in Procs |-> NoEntry]
-Init == /\ \E b \in BatchSizes : MInit(b)
+             /\ crashed' = "none" /\ pend' = [p \in Procs |-> NoEntry] /\ made' = tabs
+InitTables == IF LockScope = "fix" THEN Tables \ LateTables ELSE Tables
+Init == /\ \E b \in BatchSizes : MInit(b, InitTables)
         /\ left = [p \in Procs |-> IF p \in Inserters THEN PerIns ELSE IF p \in Flushers THEN PerFl ELSE 1]
         /\ inserted = {} /\ racy = FALSE /\ sig = {} /\ hist = <<>>
 
@@ -130,33 +139,46 @@ Goto(p, l) == pc' = [pc EXCEPT ![p] = l]
 
 (* ---- InsertData, "code": the whole critical section is one step *)
 Ins(p, e) ==
-    /\ ~Fix /\ pc[p] = "idle" /\ e.tab \in Tables
+    /\ ~Fix /\ pc[p] = "idle" /\ e.tab \in made
     /\ entries' = [entries EXCEPT ![e.tab] = Append(@, e)]
     /\ count' = count + 1
     /\ Goto(p, IF count + 1 >= batch THEN "fl_check" ELSE "idle")      \* Unlock; Flush()
-    /\ UNCHANGED <<mu, locEntries, locInfo, batch, txn, dbRows, dbLoc, todo, cur, snap, crashed, pend>>
+    /\ UNCHANGED <<mu, locEntries, locInfo, batch, txn, dbRows, dbLoc, todo, cur, snap, crashed, pend, made>>
 
 (* ---- "fix": through the gate, wait for the mutex, then the critical section (and the flush) with the mutex held *)
 RelIns(p, e) ==
-    /\ Fix /\ pc[p] = "idle" /\ e.tab \in Tables
+    /\ Fix /\ pc[p] = "idle" /\ e.tab \in made
     /\ Goto(p, "ins_wait") /\ pend' = [pend EXCEPT ![p] = e]
-    /\ UNCHANGED <<mu, entries, locEntries, locInfo, count, batch, txn, dbRows, dbLoc, todo, cur, snap, crashed>>
+    /\ UNCHANGED <<mu, entries, locEntries, locInfo, count, batch, txn, dbRows, dbLoc, todo, cur, snap, crashed, made>>
 AcqIns(p) ==
     /\ Fix /\ pc[p] = "ins_wait" /\ mu = "free"
     /\ entries' = [entries EXCEPT ![pend[p].tab] = Append(@, pend[p])]
     /\ count' = count + 1
     /\ IF count + 1 >= batch THEN Goto(p, "fl_check") /\ mu' = p        \* flushLocked(), parked at its first gate
                              ELSE Goto(p, "idle") /\ mu' = "free"
-    /\ UNCHANGED <<locEntries, locInfo, batch, txn, dbRows, dbLoc, todo, cur, snap, crashed, pend>>
+    /\ UNCHANGED <<locEntries, locInfo, batch, txn, dbRows, dbLoc, todo, cur, snap, crashed, pend, made>>
 (* Flush() / Close(): the harness gate "call", then Lock *)
 Call(p) ==
     /\ Fix /\ pc[p] = "idle" /\ Goto(p, "fl_wait")
-    /\ UNCHANGED <<mu, entries, locEntries, locInfo, count, batch, txn, dbRows, dbLoc, todo, cur, snap, crashed, pend>>
+    /\ UNCHANGED <<mu, entries, locEntries, locInfo, count, batch, txn, dbRows, dbLoc, todo, cur, snap, crashed, pend, made>>
 AcqFl(p) ==
     /\ Fix /\ pc[p] = "fl_wait" /\ mu = "free" /\ mu' = p /\ Goto(p, "fl_check")
-    /\ UNCHANGED <<entries, locEntries, locInfo, count, batch, txn, dbRows, dbLoc, todo, cur, snap, crashed, pend>>
+    /\ UNCHANGED <<entries, locEntries, locInfo, count, batch, txn, dbRows, dbLoc, todo, cur, snap, crashed, pend, made>>
+(* CreateTable(t, sample): through the harness gate "create", wait for the mutex, then the whole call under the mutex
+   (CREATE TABLE, the location table with the first table that has a location column, the prepared statement).
+   Nothing the statement can see changes but that the table now exists: in particular the interning map and the
+   ids handed out so far stay as they are — a recorder that forgot them would no longer conform. *)
+Making == {pend[q].tab : q \in {r \in Procs : pc[r] = "cr_wait"}}
+RelCreate(p, t) ==
+    /\ Fix /\ pc[p] = "idle" /\ t \in Tables \ (made \cup Making)
+    /\ Goto(p, "cr_wait") /\ pend' = [pend EXCEPT ![p] = [id |-> 0, tab |-> t, loc |-> ""]]
+    /\ UNCHANGED <<mu, entries, locEntries, locInfo, count, batch, txn, dbRows, dbLoc, todo, cur, snap, crashed, made>>
+AcqCreate(p) ==
+    /\ Fix /\ pc[p] = "cr_wait" /\ mu = "free"
+    /\ made' = made \cup {pend[p].tab} /\ Goto(p, "idle")
+    /\ UNCHANGED <<mu, entries, locEntries, locInfo, count, batch, txn, dbRows, dbLoc, todo, cur, snap, crashed, pend>>
 (* nobody can take the mutex right now: every goroutine is parked at a gate, done, or blocked *)
-Quiet == ~\E p \in Procs : pc[p] \in {"ins_wait", "fl_wait"} /\ mu = "free"
+Quiet == ~\E p \in Procs : pc[p] \in {"ins_wait", "fl_wait", "cr_wait"} /\ mu = "free"
 
 (* ---- Flush. "code": from "idle" it is an explicit Flush()/Close() call, from "fl_check" the call made by
    InsertData.  "fix": always from "fl_check", with the mutex *)
@@ -164,15 +186,15 @@ FlCheck(p) ==
     /\ IF Fix THEN pc[p] = "fl_check" /\ mu = p ELSE pc[p] \in {"idle", "fl_check"}
     /\ IF count = 0 THEN Goto(p, Home(p)) /\ mu' = "free"
                     ELSE Goto(p, "fl_begin") /\ mu' = mu
-    /\ UNCHANGED <<entries, locEntries, locInfo, count, batch, txn, dbRows, dbLoc, todo, cur, snap, crashed, pend>>
+    /\ UNCHANGED <<entries, locEntries, locInfo, count, batch, txn, dbRows, dbLoc, todo, cur, snap, crashed, pend, made>>
 
 FlBegin(p) ==
     /\ pc[p] = "fl_begin" /\ Holds(p)
     /\ IF txn THEN /\ Goto(p, "crashed") /\ crashed' = p          \* "cannot start a transaction within a transaction"
                    /\ UNCHANGED <<txn, todo>>
-              ELSE /\ txn' = TRUE /\ todo' = [todo EXCEPT ![p] = Tables] /\ Goto(p, "fl_table")
+              ELSE /\ txn' = TRUE /\ todo' = [todo EXCEPT ![p] = made] /\ Goto(p, "fl_table")
                    /\ UNCHANGED crashed
-    /\ UNCHANGED <<mu, entries, locEntries, locInfo, count, batch, dbRows, dbLoc, cur, snap, pend>>
+    /\ UNCHANGED <<mu, entries, locEntries, locInfo, count, batch, dbRows, dbLoc, cur, snap, pend, made>>
 
 FlTable(p, t) ==
     /\ pc[p] = "fl_table" /\ Holds(p) /\ t \in todo[p]
@@ -180,7 +202,7 @@ FlTable(p, t) ==
     /\ IF entries[t] = <<>>
          THEN Goto(p, AfterLoop(todo[p] \ {t})) /\ UNCHANGED <<cur, snap>>
          ELSE Goto(p, "fl_row") /\ cur' = [cur EXCEPT ![p] = t] /\ snap' = [snap EXCEPT ![p] = entries[t]]
-    /\ UNCHANGED <<mu, entries, locEntries, locInfo, count, batch, txn, dbRows, dbLoc, crashed, pend>>
+    /\ UNCHANGED <<mu, entries, locEntries, locInfo, count, batch, txn, dbRows, dbLoc, crashed, pend, made>>
 
 FlRow(p) ==
     /\ pc[p] = "fl_row" /\ Holds(p)
@@ -193,36 +215,36 @@ FlRow(p) ==
           /\ dbRows' = [dbRows EXCEPT ![cur[p]] = Append(@, <<e.id, lid>>)]
     /\ snap' = [snap EXCEPT ![p] = Tail(@)]
     /\ Goto(p, IF Len(snap[p]) = 1 THEN "fl_clear" ELSE "fl_row")
-    /\ UNCHANGED <<mu, entries, batch, txn, dbLoc, todo, cur, crashed, pend>>
+    /\ UNCHANGED <<mu, entries, batch, txn, dbLoc, todo, cur, crashed, pend, made>>
 
 FlClear(p) ==
     /\ pc[p] = "fl_clear" /\ Holds(p)
     /\ entries' = [entries EXCEPT ![cur[p]] = <<>>]
     /\ Goto(p, AfterLoop(todo[p]))
-    /\ UNCHANGED <<mu, locEntries, locInfo, count, batch, txn, dbRows, dbLoc, todo, cur, snap, crashed, pend>>
+    /\ UNCHANGED <<mu, locEntries, locInfo, count, batch, txn, dbRows, dbLoc, todo, cur, snap, crashed, pend, made>>
 
 FlLoc(p) ==
     /\ pc[p] = "fl_loc" /\ Holds(p)
     /\ IF locEntries = <<>> THEN Goto(p, "fl_reset") /\ UNCHANGED dbLoc
                             ELSE Goto(p, "fl_locclear") /\ dbLoc' = dbLoc \o locEntries
-    /\ UNCHANGED <<mu, entries, locEntries, locInfo, count, batch, txn, dbRows, todo, cur, snap, crashed, pend>>
+    /\ UNCHANGED <<mu, entries, locEntries, locInfo, count, batch, txn, dbRows, todo, cur, snap, crashed, pend, made>>
 
 FlLocClear(p) ==
     /\ pc[p] = "fl_locclear" /\ Holds(p)
     /\ locEntries' = <<>> /\ Goto(p, "fl_reset")
-    /\ UNCHANGED <<mu, entries, locInfo, count, batch, txn, dbRows, dbLoc, todo, cur, snap, crashed, pend>>
+    /\ UNCHANGED <<mu, entries, locInfo, count, batch, txn, dbRows, dbLoc, todo, cur, snap, crashed, pend, made>>
 
 FlReset(p) ==
     /\ pc[p] = "fl_reset" /\ Holds(p)
     /\ count' = 0 /\ Goto(p, "fl_commit")
-    /\ UNCHANGED <<mu, entries, locEntries, locInfo, batch, txn, dbRows, dbLoc, todo, cur, snap, crashed, pend>>
+    /\ UNCHANGED <<mu, entries, locEntries, locInfo, batch, txn, dbRows, dbLoc, todo, cur, snap, crashed, pend, made>>
 
 FlCommit(p) ==
     /\ pc[p] = "fl_commit" /\ Holds(p)
     /\ IF txn THEN txn' = FALSE /\ Goto(p, Home(p)) /\ UNCHANGED crashed
               ELSE UNCHANGED txn /\ Goto(p, "crashed") /\ crashed' = p   \* "cannot commit - no transaction is active"
     /\ mu' = "free"
-    /\ UNCHANGED <<entries, locEntries, locInfo, count, batch, dbRows, dbLoc, todo, cur, snap, pend>>
+    /\ UNCHANGED <<entries, locEntries, locInfo, count, batch, dbRows, dbLoc, todo, cur, snap, pend, made>>
 
 (* a step of process p at gate label lab (table tb where the label carries one) *)
 InFlushLoop(p) == pc[p] \in {"fl_table", "fl_row", "fl_clear", "fl_loc", "fl_locclear", "fl_reset"}
@@ -253,7 +275,7 @@ NewEntry(p, t, s) == [id |-> IdOf(p), tab |-> t, loc |-> s]
 
 (* "code" *)
 DoIns(p) == /\ p \in Inserters /\ left[p] > 0
-            /\ \E t \in Tables, s \in LocChoice(IdOf(p)) :
+            /\ \E t \in made, s \in LocChoice(IdOf(p)) :
                  LET e == NewEntry(p, t, s) IN
                  /\ Ins(p, e) /\ inserted' = inserted \cup {e}
                  /\ hist' = Append(hist, [p |-> p, l |-> "ins", t |-> t, id |-> e.id, loc |-> s])
@@ -272,7 +294,7 @@ DoFlush(p) == /\ \E lab \in FlushLabels : \E tb \in (IF lab = "fl_table" THEN to
               /\ UNCHANGED <<left, inserted, racy, sig>>
 (* "fix": gate passages wait for Quiet; taking the mutex is silent *)
 FIns(p) == /\ p \in Inserters /\ left[p] > 0
-           /\ \E t \in Tables, s \in LocChoice(IdOf(p)) :
+           /\ \E t \in made, s \in LocChoice(IdOf(p)) :
                 LET e == NewEntry(p, t, s) IN
                 /\ RelIns(p, e) /\ inserted' = inserted \cup {e}
                 /\ hist' = Append(hist, [p |-> p, l |-> "ins", t |-> t, id |-> e.id, loc |-> s])
@@ -281,21 +303,25 @@ FIns(p) == /\ p \in Inserters /\ left[p] > 0
 FCall(p) == /\ left[p] > 0 /\ (p \in Flushers \/ (p = Closer /\ AllReturned))
             /\ Call(p) /\ left' = [left EXCEPT ![p] = @ - 1] /\ Log(p, "call", "")
             /\ sig' = sig \cup HolderAt(p) /\ UNCHANGED <<inserted, racy>>
-FSilent(p) == (AcqIns(p) \/ AcqFl(p)) /\ UNCHANGED <<left, inserted, racy, sig, hist>>
+FCreate(p) == /\ p \in Inserters /\ left[p] > 0
+              /\ \E t \in LateTables : RelCreate(p, t) /\ Log(p, "create", t)
+              /\ sig' = sig \cup HolderAt(p) /\ UNCHANGED <<left, inserted, racy>>
+FSilent(p) == (AcqIns(p) \/ AcqFl(p) \/ AcqCreate(p)) /\ UNCHANGED <<left, inserted, racy, sig, hist>>
 
 Done == pc[Closer] = "closed" \/ ~Alive
 Next == \/ ~Fix /\ Alive /\ \E p \in Procs : DoIns(p) \/ DoCall(p) \/ DoAuto(p) \/ DoFlush(p)
-        \/ Fix /\ Alive /\ Quiet /\ \E p \in Procs : FIns(p) \/ FCall(p) \/ DoAuto(p) \/ DoFlush(p)
+        \/ Fix /\ Alive /\ Quiet /\ \E p \in Procs : FIns(p) \/ FCreate(p) \/ FCall(p) \/ DoAuto(p) \/ DoFlush(p)
         \/ Fix /\ Alive /\ \E p \in Procs : FSilent(p)
         \/ Done /\ UNCHANGED vars
 Spec == Init /\ [][Next]_vars /\ WF_vars(Next)
 
 -----------------------------------------------------------------------------
 TypeOK == /\ pc \in [Procs -> {"idle", "fl_check", "fl_begin", "fl_table", "fl_row", "fl_clear", "fl_loc",
-                               "fl_locclear", "fl_reset", "fl_commit", "closed", "crashed", "ins_wait", "fl_wait"}]
+                               "fl_locclear", "fl_reset", "fl_commit", "closed", "crashed", "ins_wait", "fl_wait", "cr_wait"}]
           /\ mu \in Procs \cup {"free"} /\ count \in Nat /\ txn \in BOOLEAN
           /\ \A p \in Procs : todo[p] \subseteq AllT /\ cur[p] \in AllT
-          /\ (~Fix => mu = "free")
+          /\ (~Fix => mu = "free") /\ made \subseteq Tables
+          /\ \A t \in Tables \ made : entries[t] = <<>> /\ dbRows[t] = <<>>
 (* ---- the statement *)
 AllPersistedOnce == pc[Closer] = "closed" => Abs!Stored(inserted, Tables, dbRows, dbLoc)
 NoCrash == Alive
@@ -318,8 +344,8 @@ LocInternOK ==
           /\ Abs!LocOneToOne(dbLoc \o locEntries)
           /\ {<<locInfo[s], s>> : s \in used} = Abs!Range(dbLoc \o locEntries)
 (* in "fix" a process inside a flush holds the mutex *)
-FlushHoldsLock == Fix => /\ \A p \in Procs : (pc[p] \notin {"idle", "closed", "crashed", "ins_wait", "fl_wait"}) => mu = p
-                         /\ (mu # "free" => pc[mu] \notin {"idle", "closed", "crashed", "ins_wait", "fl_wait"})
+FlushHoldsLock == Fix => /\ \A p \in Procs : (pc[p] \notin {"idle", "closed", "crashed", "ins_wait", "fl_wait", "cr_wait"}) => mu = p
+                         /\ (mu # "free" => pc[mu] \notin {"idle", "closed", "crashed", "ins_wait", "fl_wait", "cr_wait"})
 TxnOwner == txn => \E p \in Procs : InFlushLoop(p) \/ pc[p] = "fl_commit"
 
 (* ---- behaviour emission: one schedule per distinct final state (hist is outside the VIEW) *)
@@ -330,6 +356,6 @@ Outcome == IF ~Alive THEN "panic"
            ELSE IF Abs!Missing(inserted, Tables, dbRows) \ Unflushed # {} THEN "dropped"
            ELSE IF Abs!Missing(inserted, Tables, dbRows) # {} THEN "unflushed_at_close"
            ELSE "location"
-EmitCase == Done => PrintT(<<"CASE", ToJson([batch |-> batch, sched |-> hist, outcome |-> Outcome, waits |-> Cardinality(sig),
+EmitCase == Done => PrintT(<<"CASE", ToJson([batch |-> batch, init |-> InitTables, sched |-> hist, outcome |-> Outcome, waits |-> Cardinality(sig),
                                              rows |-> dbRows, locs |-> dbLoc])>>)
 =============================================================================
